@@ -353,12 +353,18 @@ class _FuncPass:
             return SEQ if k == SEQ else (VAL if k == VAL else CLEAN)
         if isinstance(e, (ast.ListComp, ast.GeneratorExp)):
             k = CLEAN
+            saved = dict(self.env)
             for g in e.generators:
                 if self.iter_kind(g.iter) in (SET, SEQ):
                     k = SEQ
+                # comprehension targets are fresh bindings (they shadow same-named locals)
+                for n in ast.walk(g.target):
+                    if isinstance(n, ast.Name):
+                        self.env[n.id] = CLEAN
             self.loop.append(k == SEQ)
             ek = self.kind(e.elt)
             self.loop.pop()
+            self.env = saved
             if ek in (VAL,) and k == CLEAN:
                 return VAL
             return k
